@@ -25,10 +25,10 @@ extern "C" void graphite2_verif_pass_loop(const void *, unsigned long iterations
     }
 }
 
-static std::vector<int> g_dirs; static bool g_small_texts = false;
+static std::vector<int> g_dirs; static bool g_small_texts = false, g_long_texts = false;
 static void build_texts() {
     static const uint32_t alpha[3] = { 0x61, 0x62, 0xE000 };
-    int maxlen = g_thorough ? 4 : 3;
+    int maxlen = g_long_texts ? 4 : 3;
     for (int L = 0; L <= maxlen; ++L) { int n = 1; for (int k = 0; k < L; ++k) n *= 3;
         for (int v = 0; v < n; ++v) { Text t; int x = v; bool has_unmapped = false; for (int k = 0; k < L; ++k) { t.usv.push_back(alpha[x % 3]); if (x % 3 == 2) has_unmapped = true; x /= 3; }
             if (!g_thorough && L == 3 && has_unmapped && t.usv[1] != 0xE000) continue;
@@ -36,7 +36,7 @@ static void build_texts() {
             g_texts.push_back(t); } }
     for (auto l : { std::vector<uint32_t>{ 0x10000 }, std::vector<uint32_t>{ 0x61, 0x10000, 0x62 }, std::vector<uint32_t>{ 0x63, 0x64 }, std::vector<uint32_t>{ 0x61, 0x301, 0x300 }, std::vector<uint32_t>{ 0x62, 0x62, 0x62, 0x62, 0x62, 0x62 }, std::vector<uint32_t>{ 0x301, 0x61 }, std::vector<uint32_t>{ 0x301, 0x301, 0x61, 0x62, 0x301 } }) { Text t; t.usv = l; g_texts.push_back(t); }
     for (auto &t : g_texts) { for (uint32_t c : t.usv) { size_t off = t.u8.size(); ref::enc8(c, t.u8); t.dec.push_back({ c, off, unsigned(t.u8.size() - off), true, false, false }); } t.u8.push_back(0); }
-    if (g_thorough) g_dirs = { 0, 1, 2, 3, 4, 5, 6, 7 }; else if (g_small_texts) g_dirs = { 0, 1 }; else g_dirs = { 0, 1, 3, 6 };
+    if (g_small_texts) g_dirs = g_thorough ? std::vector<int>{ 0, 1, 3 } : std::vector<int>{ 0, 1 }; else if (g_thorough) g_dirs = { 0, 1, 2, 3, 4, 5, 6, 7 }; else g_dirs = { 0, 1, 3, 6 };
 }
 
 static void body(const StreamCase &c, ShardCtl &ctl) {
@@ -93,7 +93,7 @@ static void body(const StreamCase &c, ShardCtl &ctl) {
 int main(int argc, char **argv) {
     g_thorough = !strcmp(argval(argc, argv, "--tier", "quick"), "thorough");
     g_gidclause = atoi(argval(argc, argv, "--gid-clause", "1"));
-    g_small_texts = !strcmp(argval(argc, argv, "--texts", "full"), "small") && !g_thorough;
+    g_small_texts = !strcmp(argval(argc, argv, "--texts", "full"), "small"); g_long_texts = !strcmp(argval(argc, argv, "--texts", "full"), "long");
     build_texts();
     return stream_main(argc, argv, "c02_stream", body, nullptr,
         { "fonts", "accepted", "rejected", "segments", "null_segments", "segs_with_attachment", "segs_shorter_than_text", "segs_longer_than_text", "unused8", "segs_violating", "max_loop_ratio_ppm", "max_loop_ratio_tight_ppm" });
